@@ -811,7 +811,26 @@ pub fn check_tree_parsed(atoms: &Atoms, x: &X, d: Dialect) -> Option<Bad> {
 
 pub fn trees(tier: Tier) -> (Vec<(X, Vec<usize>)>, engine::Stats) {
     let (mut all, st) = engine::collect(0, |c| {
-        let mode = c.choose(4, "space");
+        let mode = c.choose(5, "space");
+        if mode == 4 {
+            // S5: balanced depth-3 trees — the middle operator has an operator on *both* sides (or a call on
+            // the right), under every parent operator on either side, or under unary minus:
+            //     x P ((y Q 2) R (z S -1))      ((y Q 2) R (z S -1)) P x      -((y Q 2) R abs z)
+            let r = *c.pick(ARITH, "middle");
+            let q = *c.pick(&["+", "-", "*"], "left-inner");
+            let left = X::Bin(q, Box::new(X::Col(Ty::Num, 1)), Box::new(X::Lit(Ty::Num, "2")));
+            let right = match c.choose(3, "right-inner") {
+                0 => X::Bin("+", Box::new(X::Col(Ty::Num, 2)), Box::new(X::Lit(Ty::Num, "-1"))),
+                1 => X::Bin("*", Box::new(X::Col(Ty::Num, 2)), Box::new(X::Lit(Ty::Num, "2"))),
+                _ => X::Abs(Box::new(X::Col(Ty::Num, 2))),
+            };
+            let mid = X::Bin(r, Box::new(left), Box::new(right));
+            return Some(match c.choose(3, "parent-shape") {
+                0 => X::Bin(*c.pick(ARITH, "parent"), Box::new(X::Col(Ty::Num, 0)), Box::new(mid)),
+                1 => X::Bin(*c.pick(ARITH, "parent"), Box::new(mid), Box::new(X::Col(Ty::Num, 0))),
+                _ => X::Bin("+", Box::new(X::Col(Ty::Num, 0)), Box::new(X::Un("-", Box::new(mid)))),
+            });
+        }
         let ty = *c.pick(&[Ty::Num, Ty::Bool], "type");
         // (depth, literal leaves allowed, binary only, chain)
         let (depth, lit_budget, binary_only, chain) = match (mode, tier) {
